@@ -211,7 +211,6 @@ Qed.
 (* ---------- the frame: what no function of the stream loop touches except where stated ---------- *)
 
 Record Frame c c' : Prop := mkFrame {
-  f_initWin : sc_initWin c' = sc_initWin c;
   f_currentWindow : sc_currentWindow c' = sc_currentWindow c;
   f_lastID : sc_lastID c <= sc_lastID c';
   f_highestID : sc_highestID c <= sc_highestID c';
@@ -229,8 +228,7 @@ Lemma Frame_refl c : Frame c c.
 Proof. frame_upd. Qed.
 Lemma Frame_trans a b c : Frame a b -> Frame b c -> Frame a c.
 Proof.
-  intros [a1 a2 a3 a4 a5 a6 a7 a8 a9] [b1 b2 b3 b4 b5 b6 b7 b8 b9]. constructor.
-  - rewrite b1; exact a1.
+  intros [a2 a3 a4 a5 a6 a7 a8 a9] [b2 b3 b4 b5 b6 b7 b8 b9]. constructor.
   - rewrite b2; exact a2.
   - eapply N.le_trans; eassumption.
   - eapply N.le_trans; eassumption.
@@ -242,9 +240,10 @@ Proof.
 Qed.
 Lemma Quiet_Frame c c' : Quiet c c' -> Frame c c'.
 Proof. intros []. constructor; try assumption. rewrite q_lastID0. flia. Qed.
-Lemma Frame_Quiet c c' : Frame c c' -> sc_strms c' = sc_strms c -> sc_clientWindow c' = sc_clientWindow c ->
-  sc_lastID c' = sc_lastID c -> out_ext quiet_out c c' -> Quiet c c'.
-Proof. intros [] ? ? ? ?. constructor; assumption. Qed.
+Lemma Frame_Quiet c c' : Frame c c' -> sc_strms c' = sc_strms c -> sc_initWin c' = sc_initWin c ->
+  sc_clientWindow c' = sc_clientWindow c -> sc_lastID c' = sc_lastID c -> out_ext quiet_out c c' -> Quiet c c'.
+Proof. intros [] ? ? ? ? ?. constructor; assumption. Qed.
+Lemma Frame_upd_initWin c n : Frame c (upd_initWin c n). Proof. frame_upd. Qed.
 
 Lemma Frame_upd_strms c l : Frame c (upd_strms c l). Proof. frame_upd. Qed.
 Lemma Frame_upd_clientWindow c w : Frame c (upd_clientWindow c w). Proof. frame_upd. Qed.
